@@ -56,6 +56,11 @@ func (t TraceQLRequestProcessor) Process(ctx *shared.PlannerContext) (chan []mod
 				logger.Error("ERROR[TRP#1]: ", err)
 				return
 			}
+			if len(durationsNs) != len(spanIds) || len(timestampsNs) != len(spanIds) {
+				// the three arrays are indexed by span below; this goroutine has no recover
+				logger.Error("ERROR[TRP#2]: span id, duration and timestamp arrays of unequal length")
+				return
+			}
 			for i := range durationsNs {
 				if durationsNs[i] == timestampsNs[i] {
 					durationsNs[i] = -1
